@@ -140,6 +140,36 @@ def run(tier, seed):
                          set_("reply_on", "success"), "reply_requested_for_exactly_the_outcomes_that_have_a_method"))
     rows.append(run_case(Q("reply handler event removed"), lambda e: e.get("ev") == "ReplyHandler", None, None, drop=True))
 
+    # ---- chain group (C07-C09 end to end on a chain)
+    cevs = read_ndjson(rp["chain_trace"])
+    is_init = lambda e: e.get("ev") == "ChainInit"  # noqa: E731
+    CH = lambda name: Case("chain", name, "Trace_Chain", "Trace_Chain.cfg", renv, cevs, is_init, "next")  # noqa: E731
+    rows.append(run_case(CH("transaction data without a reply"), lambda e: e.get("ev") == "ChainDone" and e.get("verdict") == "ok" and e.get("data") == "fire",
+                         set_("data", "zz"), "uncovered_success_goes_on_with_the_callers_own_response"))
+    rows.append(run_case(CH("trigger of the built sub-message"), lambda e: e.get("ev") == "ChainBuilt" and e.get("reply_on") == "success",
+                         set_("reply_on", "always"), "reply_requested_for_exactly_the_outcomes_that_have_a_method"))
+
+    def cut_payload(e):
+        e["payload"] = e["payload"][:-1]
+    rows.append(run_case(CH("payload handed to the reply method"), lambda e: e.get("ev") == "ReplyHandler" and e.get("payload"), cut_payload,
+                         "payload_parameters_receive_the_values_given_to_the_builder"))
+
+    def bump_view(e):
+        e["view"]["count"] += 1
+    rows.append(run_case(CH("state after a failed transaction"), lambda e: e.get("ev") == "ChainDone" and e.get("verdict") == "err", bump_view,
+                         "a_failed_transaction_leaves_both_contracts_unchanged"))
+
+    def cut_events(e):
+        e["ctx"]["events"] = e["ctx"]["events"][:-1]
+    rows.append(run_case(CH("events in the reply context"), lambda e: e.get("ev") == "ReplyHandler" and e["ctx"].get("events"), cut_events,
+                         "context_carries_gas_and_for_success_events_and_message_responses"))
+
+    def other_data(e):
+        e["data"]["f"][0]["v"]["v"] = "2"
+    rows.append(run_case(CH("decoded data handed to the reply method"), lambda e: e.get("ev") == "ReplyHandler" and e["data"].get("t") == "o", other_data,
+                         "data_parameter_holds_the_documented_decoding"))
+    rows.append(run_case(CH("reply handler event removed"), lambda e: e.get("ev") == "ReplyHandler", None, None, drop=True))
+
     # ---- static group (C06, C13, C15, C17, C18)
     sp = static.pipeline("selftest", "quick", seed, ["ep", "pt", "fw", "gen", "rule"])
     sevs = read_ndjson(sp["trace"])
